@@ -173,6 +173,15 @@ func (c *Ctx) Violate(r Replay) {
 
 func (c *Ctx) NViolations() int { return len(c.vio) }
 
+// ViolatingCases is the number of cases (not signatures) that violated so far.
+func (c *Ctx) ViolatingCases() int64 {
+	var n int64
+	for _, v := range c.vio {
+		n += v.Count
+	}
+	return n
+}
+
 func (c *Ctx) Finish(path string) error {
 	c.R.Done = true
 	keys := make([]string, 0, len(c.vio))
